@@ -11,7 +11,7 @@ ASSUME = ["exact chain and game values from the reference solver", "tolerance as
 
 def _vacuity(tot):
     if tot["nontrivial"] < 10:
-        raise par.HarnessError("C14 vacuity guard: %d" % tot["nontrivial"])
+        raise par.GuardError("C14 vacuity guard: %d" % tot["nontrivial"])
 
 
 def run(ctx):
